@@ -29,11 +29,31 @@ NEEDS = {
     "C09-H": "heavy kernels look the mass up as m2hq[nf-3]: wrong mass whenever the massive quark is not the one next to the light ones (FFNS NfFF=3 bottom/top, NfFF=4 top): thresholds and slow rescaling use charm's mass",
     "C08-G": "Combiner.heavy_components hands sfh-1 instead of nf to generate_heavy_asy: FFN0 of the second/third massive quark (F2_bottom with NfFF=3) built for ihq-1 incoming flavours: spurious charm columns at a_s^2, CC already off at LO",
     "C08-H": "asymptotic NC heavy kernels: AA weights added in place into the shared VV weight dict inside the LL/NLL/NNLL loop: FFN0 gluon/singlet weight VV + (PTO+1) AA: prDIS=NC, PTO>=1, Q2 not far below MZ^2",
-    "C01-G": "", "C01-H": "", "C02-G": "", "C02-H": "", "C03-G": "", "C03-H": "", "C04-G": "", "C04-H": "", "C05-G": "", "C05-H": "",
-    "C06-G": "", "C06-H": "", "C11-G": "", "C11-H": "", "C12-G": "", "C12-H": "", "C13-G": "", "C13-H": "", "C18-G": "", "C18-H": "",
+    "C01-G": "heavy CC FL gluon: the Table-2 coefficient list is built once outside reg and h_g's cs.insert(0, c0) grows it on every integrand call: gluon row of (1,0,0,0) of FL_<massive quark>/FL_total, CC, PTODIS>=1, depends on the history of quadrature calls",
+    "C01-H": "compute_local multiplies by x instead of the convolution point: kernels with an overridden convolution point (massive CC: xi = x(1+m2/Q2); NC intrinsic: x/eta) come out scaled by x/xi at every order",
+    "C02-G": "propagator correction applied as rho*eta^2 instead of (rho*eta)^2 to the ZZ term: prDIS=NC with PropagatorCorrection != 0; 1e-6 at Q2=20, percent at Q2 >= 3000",
+    "C02-H": "CKM2Matrix.masked: 'elif' chains the top test to the bottom test: masks naming both b and t (light CC kernels with nf=6: ZM-VFNS above mt^2 or NfFF=6) never switch the top row on",
+    "C03-G": "asymptotic NNLO non-singlet F2, coefficient of ln(Q2/m2): 29*dlm/3 -> 29*dlm/6 in the local part c2ns2cm0_aq only: purely x-dependent (delta coefficient and all moments unchanged), loc(x)-loc(x0) off by 25-50%",
+    "C03-H": "heavy CC quark local term: for lambda = 1/(1+m2/Q2) < 0.1 the closed form of the b3 integral is replaced by a wrongly expanded series: Q2/m2 < 1/9 only (bottom below 2.7 GeV2, charm below 0.25 GeV2); 2e-4..1.3e-2",
+    "C04-G": "digit transposition 273.59 -> 237.59 in xcdiff3p.c2q3dfp: Adler first moment of f2_cc.NonSingletOdd at a_s^3 becomes +18 (CC, odd F2 combination, order 3 only)",
+    "C04-H": "LightBase.decorator memoises RSL objects under (class __qualname__, method, nf) without the module: f2_nc/f3_nc/fl_nc/g1_nc NonSinglet (Gluon, Singlet, CC classes alike) collide: the second structure function asked in a process gets the first one's coefficient",
+    "C05-G": "'RenScaleVar off' filter moved in front of the binomial expansion of ln(muF2/muR2)^n: the beta0*lnF pieces are dropped: RenScaleVar=False with FactScaleVar=True, PTODIS>=2: (2,0,0,1) off by 56%, (2,0,0,2) by 67%",
+    "C05-H": "sector_mapping (2,1,0): the ns- sector gets P_nsp_1 instead of P_nsm_1: q-qbar observables (F3 NC/CC), PTODIS>=2, FactScaleVar; 1e-2 of (2,0,0,1)",
+    "C06-G": "generate_single_flavor_light builds the gluon coefficient with nf = ihq: massless heavy-tagged NC/EM observables (F2_charm, F2_bottom ...) above the NEXT matching scale: gluon row of (1,0,0,0) scaled by ihq/nf",
+    "C06-H": "ScaleVariations.ren_coeffs memoised per order without nf on the runner-wide manager: the nf of the lowest Q2 of the card fixes beta0/beta1 for all points: PTODIS>=2, a scale-variation switch, points in several nf regions of one run",
+    "C11-G": "cross-section y+ loses the documented target-mass term -2 (Mh x y)^2/Q2 when the card has TMC != 0 ('not twice'): XSCHORUSCC/XSNUTEVCC/XSNUTEVNU with TMC 1-3; up to 5e-2",
+    "C11-H": "two cooperating edits: lepton coefficients lru_cached (complete key except the projectile) and the antilepton F3 sign applied in place on the cached array: each antilepton evaluation of the same kind and point toggles the stored sign",
+    "C12-G": "apply_isospin 'nothing to rotate' shortcut looks at pids 1, 2 only: kernels whose only u/d content is an antiquark (massive CC charm/top with electron/antineutrino, bottom with positron/neutrino) stay un-rotated on non-proton targets",
+    "C12-H": "update_target unpacks an explicit mapping by position (z, a = target.values()): mappings listing A before Z (any card that went through yaml.dump) get Z and A swapped",
+    "C13-G": "generate_single_flavor_light feeds the pure-singlet/valence kernels from range(1, ihq+1): heavy-tagged massless observable above the next threshold (F2_charm above mb2, ZM-VFNS), PTO>=2: rows of the heavier active quarks vanish, d<->b exchange symmetry broken",
+    "C13-H": "beam-polarisation sign refactored into hel = -pol for e-/nubar but the ZZ VV/AA lepton coupling still uses the raw pol: e+(P) != e-(-P) for F2/FL, suppressed by the Z propagator squared (1e-7 at Q2=10, 3e-2 at 2e4)",
+    "C18-G": "fl_cc.NonSingletOdd.N3LO passes no loc arguments: the compiled local kernel reads args[0] of an empty vector (garbage / 0), the interpreter raises IndexError: FL (or XS with FL), CC, light/total, PTO=3 (the defect F-07 re-introduced)",
+    "C18-H": "nielsen inner loop R / M1**N1 rewritten as R * M1**(-N1) with int64 operands: compiled code evaluates int**negative int as 0: S_{n>=2,p}(x > 1/2): asymptotic NNLO gluon/pure-singlet pieces (FONLL-FFN0, PTO>=2), JIT only",
 }
 # how each check caught it / what was added after a miss (hand-written, keyed seed -> check -> text)
 HOW = {
+    ("C06-G", "C06"): "tagged mode: gluon row of a massless flavour-tagged observable = e_q^2/sum e^2 times the total's, added after the first miss",
+    ("C03-H", "C03"): "mass ratios Q2/m2 below 1 (0.03, 0.3; thorough 0.01..0.3) among the kernel arguments, added after the first miss",
     ("C17-H", "C17"): "matching ratios k != 1 with the coupling compared with eko inside the windows between m^2, k m^2 and (k m)^2, added after the first miss",
     ("C19-H", "C19"): "a refined grid that raises after the first grid of the family ran is a violation; added after the first run was INCONCLUSIVE (the crash had been counted as an unusable case)",
 }
